@@ -101,7 +101,20 @@ Sk14 == {<<h1, TabDecl("tt", 5), If1(Lt(L(0), L(1)), <<h2, Pr(AggQ("f", "tt")), 
 Sk15 == {<<h1, TabDecl("tt", 5), Func("g", "@q", <<h2, Ret(AggQ("f", "tt"))>>), Pr(CallF("g", L(0))), h3, Pr(CallF("g", L(0))), Pr(AggQ("f", "tt"))>>
          : h1, h2, h3 \in FDecls}
 
-Programs == Sk14 \cup Sk15 \cup Sk11 \cup Sk12 \cup Sk13 \cup Sk1 \cup Sk2 \cup Sk3 \cup Sk4 \cup Sk5 \cup Sk6 \cup Sk7 \cup Sk8 \cup Sk9 \cup Sk10
+\* one cursor name declared outside (and perhaps opened) and again in a branch / in a function body: every statement means the
+\* innermost cursor of the name, in whatever state that one is
+CurOpen(c) == [k |-> "curopen", c |-> c]
+CurClose(c) == [k |-> "curclose", c |-> c]
+CurFirst(c, x) == [k |-> "curfirst", c |-> c, x |-> x]
+CurIsOpen(c) == [k |-> "curisopen", c |-> c]
+CurAtoms == { CurDecl("cur", 32), CurOpen("cur"), CurFirst("cur", "@a"), CurClose("cur"), CurIsOpen("cur"), CurDisp("cur") }
+Sk16 == {<<VarS("@a", L(0)), CurDecl("cur", 31), h0, If1(Lt(L(0), L(1)), <<h1, h2, h3>>), h4, Pr(Vr("@a"))>>
+         : h0 \in {CurOpen("cur"), Pr(L(0))}, h1, h2, h3 \in CurAtoms, h4 \in {CurFirst("cur", "@a"), CurIsOpen("cur")}}
+Sk17 == {<<VarS("@a", L(0)), CurDecl("cur", 31), h0, Func("f", "@p", <<h1, h2, h3, Ret(Vr("@a"))>>), Pr(CallF("f", L(1))), h4, Pr(Vr("@a"))>>
+         : h0 \in {CurOpen("cur"), Pr(L(0))}, h1, h2, h3 \in CurAtoms, h4 \in {CurFirst("cur", "@a"), CurIsOpen("cur")}}
+CursorPrograms == Sk16 \cup Sk17
+
+Programs == Sk16 \cup Sk17 \cup Sk14 \cup Sk15 \cup Sk11 \cup Sk12 \cup Sk13 \cup Sk1 \cup Sk2 \cup Sk3 \cup Sk4 \cup Sk5 \cup Sk6 \cup Sk7 \cup Sk8 \cup Sk9 \cup Sk10
 
 CONSTANTS Fuel, ProgSet      \* ProgSet: the programs of this run (all families, or one)
 VARIABLE prog
